@@ -183,3 +183,15 @@ register(
     "classification per line, the offered set algebra and sort priorities are not decided.",
     [r8.r11c_one_entry_per_name, r8.r8c_text_fallback],
 )
+
+from . import r7
+
+register(
+    "C11",
+    "Structural clauses of crash freedom: (R7a) every `str` range-indexing site is proven to slice at char boundaries "
+    "of the sliced string by an abstract evaluation of the index provenance (find / char_indices / len / guarded "
+    "constants / suffix arithmetic) or is in the reviewed table; (R7b) no overflow-checked u32 arithmetic on request "
+    "positions; (R7c) every unwrap/expect outside lock poisoning is reviewed. Other panic sources (slice bounds, usize "
+    "arithmetic, range order), panics inside dependencies, stack exhaustion, wedging and scan isolation are not decided.",
+    [r7.r7_slicing, r7.r7_u32_overflow, r7.r7_unwrap],
+)
